@@ -850,6 +850,16 @@ fn convert_image_inner(
         super::converter::convert_element(node, &state, cache, &mut root);
         return if root.has_children() {
             root.calculate_bounding_boxes();
+            // Resolve paint servers of the referenced element right away.
+            // A filter that is used by more than one element is shared
+            // and cannot be modified afterwards.
+            super::paint_server::update_paint_servers(
+                &mut root,
+                crate::Transform::default(),
+                None,
+                None,
+                cache,
+            );
             // Transfer node id from group's child to the group itself if needed.
             if let Some(Node::Group(ref mut g)) = root.children.first_mut() {
                 if let Some(child2) = g.children.first_mut() {
